@@ -35,6 +35,28 @@ LibLen(r, pos) == IF \E i \in 1..Len(r.orc) : r.orc[i][1] = pos
 RxLen(r, pos) == IF \E i \in 1..Len(r.rx) : r.rx[i][1] = pos
                  THEN r.rx[CHOOSE i \in 1..Len(r.rx) : r.rx[i][1] = pos][2] ELSE -1
 
+\* a bare description (a text lexeme that is neither parenthesised nor a regex body) ends where a line begins with a
+\* directive: inside it no line begins - after blanks - with a keyword (or a response code) that is followed by a blank,
+\* a line end, a "/" or the end of the lexeme.  (The directive would have been dropped into the text.)
+KwAt(inp, f, e) ==
+  \/ \E k \in 1..Len(KwTable) :
+        LET n == Len(KwTable[k]) IN
+        /\ f + n - 1 <= e /\ Text(inp, f, f + n - 1) = KwTable[k]
+        /\ (f + n > e \/ ByteAt(inp, f + n) \in {32, 9, 10, 13, 47})
+  \/ /\ f + 2 <= e /\ ByteAt(inp, f) >= 49 /\ ByteAt(inp, f) <= 53 /\ Digit(ByteAt(inp, f + 1)) /\ Digit(ByteAt(inp, f + 2))
+     /\ (f + 3 > e \/ ByteAt(inp, f + 3) \in {32, 9, 10, 13})
+BareTextsEndAtDirectives(r) ==
+  \A i \in 1..Len(r.real) :
+     (r.real[i][1] = 5 /\ r.real[i][2] <= r.real[i][3] /\ RxLen(r, r.real[i][2]) < 0) =>
+        LET b == r.real[i][2]  e == r.real[i][3]
+            nb == {k \in b..e : ~Ws(ByteAt(r.inp, k)) /\ ~Nl(ByteAt(r.inp, k))}
+        IN (nb # {} /\ ByteAt(r.inp, CHOOSE k \in nb : \A m \in nb : k <= m) # 40) =>
+             ~\E j \in b..(e - 1) :
+                 /\ Nl(ByteAt(r.inp, j))
+                 /\ LET S == {m \in (j + 1)..e : ~Ws(ByteAt(r.inp, m))}
+                    IN S # {} /\ (LET f == CHOOSE m \in S : \A q \in S : m <= q
+                                  IN ~Nl(ByteAt(r.inp, f)) /\ KwAt(r.inp, f, e))
+
 GateProblems(r) ==
   IF r.rpanic THEN {"scanner panicked"}
   ELSE IF r.rerr >= 0 THEN {}          \* C14 speaks about inputs the scanner reads without error
@@ -42,6 +64,8 @@ GateProblems(r) ==
        \cup (IF KeywordsKnown(r.inp, r.real) THEN {} ELSE {"keyword lexeme does not spell a known directive"})
        \cup (IF LexemesWFLoose(r.inp, r.real) /\ ~AnnotationsDelimited(r.inp, r.real)
              THEN {"annotation lexeme is not what its delimiters enclose"} ELSE {})
+       \cup (IF LexemesWFLoose(r.inp, r.real) /\ ~BareTextsEndAtDirectives(r)
+             THEN {"a directive line lies inside a bare description lexeme"} ELSE {})
        \cup (IF LexemesWFLoose(r.inp, r.real) /\ ~DescriptionsDelimited(r.inp, r.real)
              THEN {"description lexeme is not what its parentheses enclose"} ELSE {})
        \cup (IF LexemesWFLoose(r.inp, r.real) /\ ~OnlyTriviaSkipped(r.inp, r.real, Len(r.inp))
